@@ -8,7 +8,7 @@ import numpy as np
 from ..common import seed_rng
 from ..slchecks import make_curve
 from .. import numref
-from .C04 import translate  # noqa: F401  (ip_tik is one of the generated formulas)
+from .C04 import translate_formulas as translate  # noqa: F401  (ip_tik is one of the generated formulas)
 
 PROP_MODS = ['Stbem.Props.C08']
 RULE = ('tie: the REAL InitialOperator.linform (boundary-targeted domain mesh, the three cell classes, their '
